@@ -74,9 +74,12 @@ def make(cls, n, scripts, tol, before_fault=None, after_fault=None):
     # variables with longer names (one of them spelt from the names of two others): a single name given as a string is one name
     for name, f in EXTRA.items():
         m.add_variable(name, [f(i) for i in range(n)])
+    if STRICT['on']:
+        m.strict = True        # no new attributes from here on (tracing needs none)
     return m
 
 
+STRICT = {'on': False}     # whether the models refuse new attributes (set per case)
 DUP = {'on': False}        # whether the span repeats a label (set per case)
 TOUCH = {'on': False}      # whether the scripted passes also move the exogenous X (set per case)
 EXTRA = {'AB': lambda t: 0.125 * t + 7.0, 'Xtra': lambda t: -3.0 - t}
@@ -109,6 +112,7 @@ def trace_image(m):
 def full_check(ctx, cls, n, scripts, opts, spec, entry, arg, tol, faults, case, repeat=1):
     """Traced vs untraced twin + exact expected trace (labels and values)."""
     TOUCH['on'] = bool(case.get('touch_exog'))
+    STRICT['on'] = bool(case.get('strict'))
     DUP['on'] = bool(case.get('dup_labels')) and entry == 'solve_t'      # (solve() and solve_period() go by label: first occurrence)
     A = make(cls, n, scripts, tol, *faults)
     # the untraced twin: the same tracer-extended class called without trace=..., or (every other case) the plain
@@ -278,7 +282,7 @@ def run_shard(ctx):
             faults = (None, rng.choice(['exc', 'warn']))
         repeat = 2 if rng.random() < 0.3 else 1
         interlude = rng.choice(['none', 'list-assign', 'copy', 'copy-then-list-assign'])
-        case = dict(n=n, cls=cls.__name__, trace=spec, entry=entry, arg=arg, arg_numpy=(entry == 'solve_t' and rng.random() < 0.3), touch_exog=rng.random() < 0.3, dup_labels=rng.random() < 0.2, opts=opts, faults=list(faults), repeat=repeat, interlude=interlude, twin=rng.choice(['same', 'plain']),
+        case = dict(n=n, cls=cls.__name__, trace=spec, entry=entry, arg=arg, arg_numpy=(entry == 'solve_t' and rng.random() < 0.3), touch_exog=rng.random() < 0.3, dup_labels=rng.random() < 0.2, opts=opts, faults=list(faults), repeat=repeat, interlude=interlude, twin=rng.choice(['same', 'plain']), strict=rng.random() < 0.25,
                     scripts={str(k): v for k, v in scripts.items()})
         ctx.evaluation(case, nontrivial=True, sample=case)
         ctx.seen('trace_specs', repr(spec))
@@ -301,6 +305,7 @@ def run_shard(ctx):
     integer_models(ctx)
     if ctx.shard == 0:
         renamed_trace(ctx)
+        late_variable(ctx)
     if ctx.shard == 0:
         # tracer next to the alias extension: a trace asked for by alias is a trace of that variable (twin traced by the variables' own names)
         from . import c18
@@ -369,6 +374,45 @@ def parser_models(ctx):
                     stored = [float(A[x][t]) for x in names]
                     if not all(a == b or (math.isnan(a) and math.isnan(b)) for a, b in zip(got[:, -1].tolist(), stored)):
                         ctx.violation('trace-end-not-solution', f'parser model period {t}: end {got[:, -1].tolist()} stored {stored}', case)
+
+
+def late_variable(ctx):
+    """trace=True records *the model's variables*: those of the object being solved at the time of the call - a variable added to a
+    copy after the original was traced is in the copy's later snapshots, and a sibling instance of the same class with other
+    variables is traced by its own."""
+    import fsic
+    from fsic.extensions import TracerMixin
+    Model = fsic.build_model(fsic.parse_model('Y = 0.5 * Y[-1] + G\nZ = Y * 2'))
+
+    class TM(TracerMixin, Model):
+        pass
+
+    for strict in (False, True):
+        for how in ('copy', 'same-object', 'sibling'):
+            case = dict(kind='late-variable', strict=strict, how=how)
+            ctx.evaluation(case, nontrivial=True, sample=case)
+            A, B = TM(range(2000, 2006), G=3.0, strict=strict), Model(range(2000, 2006), G=3.0, strict=strict)
+            ra, rb = call(A.solve_t, 1, trace=True, max_iter=60), call(B.solve_t, 1, max_iter=60)
+            if how == 'copy':
+                A, B = A.copy(), B.copy()
+            elif how == 'sibling':
+                A, B = TM(range(2000, 2006), G=3.0, strict=strict), Model(range(2000, 2006), G=3.0, strict=strict)
+                A.Y[1], B.Y[1] = 5.0, 5.0
+            for obj in (A, B):
+                obj.add_variable('Late', 7.5)
+            r2a, r2b = call(A.solve_t, 2, trace=True, max_iter=60), call(B.solve_t, 2, max_iter=60)
+            ctx.count('twin_runs_compared')
+            if repr((ra, r2a)) != repr((rb, r2b)) or any(A[x].tolist() != B[x].tolist() for x in B.names) or list(A.status) != list(B.status):
+                ctx.violation('tracing-changes-outcome', f'{how}, strict={strict}: traced {str((ra, r2a))[:160]}; untraced {str((rb, r2b))[:160]}', case)
+                return
+            tr = A['trace'][2]
+            ctx.count('trace_snapshots_compared', len(tr.index))
+            if list(tr.names) != list(A.names):
+                ctx.violation('trace-names', f'{how}, strict={strict}: trace=True after add_variable("Late") recorded {list(tr.names)}; the model\'s variables are {list(A.names)}', case)
+                return
+            if list(tr.index)[:3] != ['start', 'before', 0] or tr.index[-1] != 'end':
+                ctx.violation('trace-labels', f'{how}, strict={strict}: period 2 trace labels {list(tr.index)}', case)
+                return
 
 
 def renamed_trace(ctx):
